@@ -326,3 +326,351 @@ Proof.
     right. exists n. split; [eapply (it_ack_log _ IT); exact Hack|].
     eapply unlinked_log_dead; eauto. apply (it_unl _ IT); exact Hunl.
 Qed.
+
+(* ------------------------------------------------------------------ C03 *)
+Lemma sorted_ext : forall l1 l2 : list N, StronglySorted N.lt l1 -> StronglySorted N.lt l2 ->
+  (forall x, In x l1 <-> In x l2) -> l1 = l2.
+Proof.
+  intros l1; induction l1 as [|a r1 IH]; intros l2 H1 H2 Hext.
+  - destruct l2 as [|b r2]; [reflexivity|]. exfalso. apply (proj2 (Hext b)). left; reflexivity.
+  - destruct l2 as [|b r2]; [exfalso; apply (proj1 (Hext a)); left; reflexivity|].
+    inversion H1 as [|? ? S1 F1]; subst. inversion H2 as [|? ? S2 F2]; subst.
+    rewrite Forall_forall in F1, F2.
+    assert (a = b).
+    { destruct (proj1 (Hext a) (or_introl eq_refl)) as [E|Ha]; [congruence|].
+      destruct (proj2 (Hext b) (or_introl eq_refl)) as [E|Hb]; [congruence|].
+      specialize (F1 _ Hb). specialize (F2 _ Ha). lia. }
+    subst b. f_equal. apply IH; [exact S1|exact S2|].
+    intro x; split; intro Hx.
+    + destruct (proj1 (Hext x) (or_intror Hx)) as [E|H]; [|exact H]. subst x. specialize (F1 _ Hx). lia.
+    + destruct (proj2 (Hext x) (or_intror Hx)) as [E|H]; [|exact H]. subst x. specialize (F2 _ Hx). lia.
+Qed.
+
+Lemma pairs_by_key : forall {B} (l : list (N * B)) (F : N -> B),
+  (forall n b, In (n, b) l -> b = F n) -> l = map (fun n => (n, F n)) (map fst l).
+Proof.
+  intros B l F; induction l as [|[n b] r IH]; intro H; cbn [map fst]; [reflexivity|].
+  f_equal; [f_equal; apply H; left; reflexivity|apply IH; intros; apply H; right; assumption].
+Qed.
+
+Lemma sorted_split : forall (l : list N) L, StronglySorted N.lt l ->
+  l = filter (fun n => n <? L) l ++ filter (fun n => L <=? n) l.
+Proof.
+  intros l L H; induction H as [|a r S IH F]; [reflexivity|]. cbn [filter].
+  destruct (a <? L) eqn:E1.
+  - apply N.ltb_lt in E1. assert (E2 : (L <=? a) = false) by (apply N.leb_gt; exact E1). rewrite E2.
+    cbn [app]. f_equal. exact IH.
+  - apply N.ltb_ge in E1. assert (E2 : (L <=? a) = true) by (apply N.leb_le; exact E1). rewrite E2.
+    assert (Hnone : filter (fun n => n <? L) r = []).
+    { clear -F E1. induction r as [|b r IH]; [reflexivity|]. inversion F; subst. cbn [filter].
+      assert ((b <? L) = false) by (apply N.ltb_ge; lia). rewrite H. apply IH; assumption. }
+    rewrite Hnone. cbn [app]. f_equal.
+    clear -F E1. induction r as [|b r IH]; [reflexivity|]. inversion F; subst. cbn [filter].
+    assert ((L <=? b) = true) by (apply N.leb_le; lia). rewrite H. f_equal. apply IH; assumption.
+Qed.
+
+Lemma obj_synced_le : forall p o x, Inv_struct p -> nth_error (d_objs (p_disk p)) o = Some x ->
+  (o_synced x <= length (o_recs x))%nat.
+Proof.
+  intros p o x IS Hx. pose proof (is_ops _ IS) as W.
+  assert (In o (create_ids (d_ops (p_disk p)))).
+  { rewrite (ow_ids _ _ W). apply in_seq. split; [lia|]. cbn. apply nth_error_Some; congruence. }
+  apply in_create_ids in H. destruct H as [f Hin]. apply In_nth_error in Hin. destruct Hin as [i Hi].
+  apply (is_typed _ IS i f o x Hi Hx).
+Qed.
+
+Lemma flat_map_map_key : forall (F : N -> list brec) (l : list N),
+  flat_map snd (map (fun n => (n, F n)) l) = flat_map F l.
+Proof. intros F l; induction l as [|a r IH]; cbn; [reflexivity|rewrite IH; reflexivity]. Qed.
+
+Theorem C03_process_crash : forall tr, wf_protocol tr = true -> forall p,
+  iget (written_image (firstn p tr)) FCurrent <> None ->
+  exists s old, recover (written_image (firstn p tr)) = Some s /\
+    Forall (fun b => flushed (firstn p tr) b /\
+                     exists n, In b (log_batches (firstn p tr) n) /\ n < r_log s) old /\
+    (old ++ applied_batches s = acked_before tr p \/
+     exists b, in_flight tr p b /\ old ++ applied_batches s = acked_before tr p ++ [b]).
+Proof.
+  intros tr Hwf p Hcur. pose proof (wf_protocol_firstn _ p Hwf) as Hwf'.
+  unfold acked_before, in_flight. set (tr' := firstn p tr) in *.
+  pose proof (Inv_dur_run _ Hwf') as I. pose proof (id_struct _ I) as IS. pose proof (Inv_trace_run _ Hwf') as IT.
+  pose proof (is_ops _ IS) as W. rewrite prun_disk in W.
+  set (d := fs_run tr') in *. set (len := length (d_ops d)).
+  assert (A : admissible d len).
+  { split; [|unfold len; lia]. pose proof (is_dsync _ IS) as Hd. rewrite prun_disk in Hd. exact Hd. }
+  assert (Hcut : cut_ok d (cut_written d)).
+  { intros o x Hx. unfold cut_written. rewrite Hx. split; [|lia].
+    apply (obj_synced_le (prun tr') o x); [exact IS|rewrite prun_disk; exact Hx]. }
+  unfold written_image in Hcur |- *. fold d len in Hcur |- *.
+  destruct (iget_current_some _ _ _ Hcur) as [c Hb].
+  destruct (recover_good (prun tr') len (cut_written d) c I) as [s [Hr R]]; rewrite ?prun_disk; auto.
+  rewrite prun_disk in Hr. fold d in Hr.
+  set (L := r_log s). set (K := map fst (p_logs (prun tr'))).
+  set (F := log_batches tr').
+  assert (HK : StronglySorted N.lt K /\ Forall (N.lt 0) K).
+  { pose proof (is_logs_sorted _ IS) as Hs. inversion Hs; subst. split; assumption. }
+  destruct HK as [HKs HK0].
+  (* the replayed logs are exactly the created logs at or above log_number *)
+  assert (Hnums : map fst (r_segs s) = filter (fun n => L <=? n) K).
+  { rewrite (rc_nums _ _ _ _ R). rewrite prun_disk. fold d L.
+    apply sorted_ext; [apply sorted_filter, sort_N_sorted|apply sorted_filter; exact HKs|].
+    intro n. rewrite !filter_In, in_image_logs, iget_image_of. split.
+    - intros [[recs Hrecs] Hn].
+      destruct (ifile_log (prun tr') len (cut_written d) n recs IS) as [o [x [bs [Hbo [_ _]]]]]; [rewrite prun_disk; exact Hrecs|].
+      rewrite prun_disk in Hbo. fold d in Hbo.
+      destruct (proj1 (nsk_created _ _ _ _ _ W Hbo)) as [i [_ Hc]]; [discriminate|].
+      assert (HnK : In n K). { unfold K. eapply in_logs_of_created; [exact IS|rewrite prun_disk; exact Hc]. }
+      split; [exact HnK|]. apply orb_true_iff in Hn. destruct Hn as [Hn|Hn]; [exact Hn|].
+      apply N.eqb_eq in Hn. subst n. rewrite Forall_forall in HK0. specialize (HK0 _ HnK). lia.
+    - intros [HnK Hn]. split; [|rewrite Hn; reflexivity].
+      destruct (in_logs_created _ _ IS HnK) as [i [o Hc]]. rewrite prun_disk in Hc. fold d in Hc.
+      assert (Hi : (i < len)%nat) by (apply nth_error_Some; unfold created_at in Hc; congruence).
+      destruct (nsk_log_bound_or_unlinked _ _ _ _ _ W Hc len Hi (Nat.le_refl _)) as [Hbo|[u [_ Hu]]].
+      + pose proof (created_at_lt _ _ _ _ _ W Hc) as Hlt.
+        destruct (nth_error (d_objs d) o) as [x|] eqn:Ex; [|apply nth_error_None in Ex; lia].
+        unfold ifile. rewrite Hbo, Ex. eauto.
+      + exfalso. assert (n < L) by (eapply unlinked_log_dead; eauto using nth_error_In).
+        apply N.leb_le in Hn. lia. }
+  (* every replayed log is replayed completely *)
+  assert (Hsegs : r_segs s = map (fun n => (n, F n)) (filter (fun n => L <=? n) K)).
+  { rewrite <- Hnums. apply pairs_by_key. intros n bs Hin.
+    destruct (seg_is_log_prefix _ _ _ _ Hwf' R _ _ Hin) as [o [x [_ [Hx [Hbs ->]]]]].
+    fold d in Hx. unfold cut_written. rewrite Hx. rewrite <- (batches_of_length _ _ Hbs). apply firstn_all. }
+  assert (Hlogs : p_logs (prun tr') = map (fun n => (n, F n)) K).
+  { apply pairs_by_key. intros n bs Hin. apply (it_logs _ IT); exact Hin. }
+  set (old := flat_map F (filter (fun n => n <? L) K)).
+  assert (Hsplit : logged tr' = old ++ applied_batches s).
+  { rewrite (it_logged _ IT), Hlogs, flat_map_map_key. unfold applied_batches. rewrite Hsegs, flat_map_map_key.
+    unfold old. rewrite <- flat_map_app. f_equal. apply sorted_split; exact HKs. }
+  exists s, old. split; [exact Hr|split].
+  - apply Forall_forall. intros b Hbo. unfold old in Hbo. apply in_flat_map in Hbo.
+    destruct Hbo as [n [Hn Hbn]]. apply filter_In in Hn. destruct Hn as [HnK Hn]. apply N.ltb_lt in Hn.
+    split; [|exists n; split; [exact Hbn|exact Hn]].
+    apply in_map_iff in HnK. destruct HnK as [[n' bs] [En Hin]]. cbn [fst] in En; subst n'.
+    pose proof (recovered_log_le_cov _ _ _ _ Hwf' R) as Hle. fold L in Hle.
+    eapply (it_flushed _ IT); [exact Hin|lia|]. rewrite (it_logs _ IT _ _ Hin). exact Hbn.
+  - rewrite <- Hsplit, <- (it_acks _ IT).
+    destruct (p_call (prun tr')) as [[[[id ops] sy] [[n sq]|]]|] eqn:Ec; cbn [pending].
+    + right. exists (sq, ops). split; [exists id, sy, n; reflexivity|reflexivity].
+    + left. apply app_nil_r.
+    + left. apply app_nil_r.
+Qed.
+
+(* ------------------------------------------------------------------ the test enumerator is sound *)
+Lemma run_shape : forall tr,
+  (d_dsync (fs_run tr) <= length (d_ops (fs_run tr)))%nat /\
+  forall o x, nth_error (d_objs (fs_run tr)) o = Some x -> (o_synced x <= length (o_recs x))%nat.
+Proof.
+  intro tr; induction tr as [|e tr [IH1 IH2]] using rev_ind; [split; [cbn; lia|intros o x H; destruct o; discriminate]|].
+  rewrite fs_run_snoc. set (d := fs_run tr) in *.
+  destruct e as [f|f pl| | |a b|f|id b sy|id ok]; cbn [fs_step];
+    try (destruct (ns_lookup d _) as [o'|] eqn:El); cbn [d_dsync d_ops d_objs];
+    rewrite ?app_length; cbn [length]; (split; [lia|]); try exact IH2.
+  - intros o x H. destruct (nth_snoc_inv _ _ _ _ H) as [Hold|[_ <-]]; [eauto|cbn; lia].
+  - intros o x H. destruct (Nat.eq_dec o' o) as [->|Hne].
+    + destruct (nth_error (d_objs d) o) as [x0|] eqn:E0.
+      * rewrite (nth_error_upd_nth_eq _ _ _ _ E0) in H. injection H as <-.
+        unfold obj_append; cbn [o_synced o_recs]. rewrite app_length; cbn [length]. specialize (IH2 _ _ E0). lia.
+      * exfalso. assert (nth_error (upd_nth (d_objs d) o (obj_append pl)) o <> None) by congruence.
+        apply nth_error_Some in H0. rewrite length_upd_nth in H0. apply nth_error_None in E0. lia.
+    + rewrite nth_error_upd_nth_neq in H by exact Hne. eauto.
+  - intros o x H. destruct (Nat.eq_dec o' o) as [->|Hne].
+    + destruct (nth_error (d_objs d) o) as [x0|] eqn:E0.
+      * rewrite (nth_error_upd_nth_eq _ _ _ _ E0) in H. injection H as <-.
+        unfold obj_sync; cbn [o_synced o_recs]. lia.
+      * exfalso. assert (nth_error (upd_nth (d_objs d) o obj_sync) o <> None) by congruence.
+        apply nth_error_Some in H0. rewrite length_upd_nth in H0. apply nth_error_None in E0. lia.
+    + rewrite nth_error_upd_nth_neq in H by exact Hne. eauto.
+Qed.
+
+Theorem rep_images_sound : forall tr img, In img (rep_images tr) -> crash_image tr img.
+Proof.
+  intros tr img H. destruct (run_shape tr) as [Hd Hs]. unfold rep_images in H.
+  unfold crash_image. set (d := fs_run tr) in *.
+  assert (Hk : forall k, In k (map (fun i => (d_dsync d + i)%nat) (seq 0 (S (length (d_ops d) - d_dsync d)))) ->
+                 (d_dsync d <= k <= length (d_ops d))%nat).
+  { intros k Hin. apply in_map_iff in Hin. destruct Hin as [i [<- Hi]]. apply in_seq in Hi. lia. }
+  apply in_app_or in H. destruct H as [H|H]; [|apply in_app_or in H; destruct H as [H|H]].
+  - apply in_map_iff in H. destruct H as [k [<- Hin]]. exists k, (cut_synced d). split; [apply Hk; exact Hin|split; [|reflexivity]].
+    intros o x Hx. unfold cut_synced. fold d. rewrite Hx. specialize (Hs _ _ Hx). lia.
+  - apply in_map_iff in H. destruct H as [k [<- Hin]]. exists k, (cut_written d). split; [apply Hk; exact Hin|split; [|reflexivity]].
+    intros o x Hx. unfold cut_written. fold d. rewrite Hx. specialize (Hs _ _ Hx). lia.
+  - apply in_map_iff in H. destruct H as [o0 [<- Hin]]. exists (length (d_ops d)), (one_less d o0).
+    split; [lia|split; [|reflexivity]].
+    intros o x Hx. unfold one_less, cut_synced, cut_written. fold d. specialize (Hs _ _ Hx).
+    destruct (Nat.eqb o o0) eqn:E.
+    + apply Nat.eqb_eq in E; subst o0. rewrite Hx. lia.
+    + rewrite Hx. lia.
+Qed.
+
+(* ------------------------------------------------------------------ the rules are necessary: refutations *)
+(* Test data (hand-written traces shaped like lcdb's: create DB, reopen-style
+   rollover to MANIFEST-2, one sync write, one plain write, then a flush / a
+   second rollover done wrongly). *)
+Definition ex_ed l p n s nw dl := mkMEdit nw dl l p n s.
+Definition ex_open : list fev :=
+  [ ECreate (FManifest 1); EAppend (FManifest 1) (PEdit (ex_ed (Some 0) None (Some 2) (Some 0) [] []));
+    ESyncDir; ESync (FManifest 1);
+    ECreate (FTmp 1); EAppend (FTmp 1) (PCurrent 1); ESync (FTmp 1); ERename (FTmp 1) FCurrent; ESyncDir;
+    ECreate (FLog 3); ECreate (FManifest 2);
+    EAppend (FManifest 2) (PEdit (ex_ed None None None None [] []));
+    EAppend (FManifest 2) (PEdit (ex_ed (Some 3) (Some 0) (Some 4) (Some 0) [] []));
+    ESyncDir; ESync (FManifest 2);
+    ECreate (FTmp 2); EAppend (FTmp 2) (PCurrent 2); ESync (FTmp 2); ERename (FTmp 2) FCurrent; ESyncDir;
+    EUnlink (FManifest 1) ].
+Definition ex_w1 := [WPut [97] [1]].
+Definition ex_w2 := [WPut [98] [2]; WDel [97]].
+Definition ex_writes : list fev :=
+  [ ECall 1 ex_w1 true; EAppend (FLog 3) (PBatch 1 ex_w1); ESync (FLog 3); EAck 1 true;
+    ECall 2 ex_w2 false; EAppend (FLog 3) (PBatch 2 ex_w2); EAck 2 true ].
+Definition ex_t := batch_entries 1 ex_w1 ++ batch_entries 2 ex_w2.
+Definition ex_e6 := PEdit (ex_ed (Some 6) (Some 0) (Some 8) (Some 3) [(0%nat, 7)] []).
+
+(* the protocol as lcdb performs it *)
+Definition good_trace := ex_open ++ ex_writes ++
+  [ ECreate (FLog 6); ECreate (FTable 7); EAppend (FTable 7) (PTable ex_t); ESync (FTable 7);
+    EAppend (FManifest 2) ex_e6; ESyncDir; ESync (FManifest 2); EUnlink (FLog 3) ].
+(* R2 violated: the table is not fsynced before the edit naming it *)
+Definition bad_no_table_fsync := ex_open ++ ex_writes ++
+  [ ECreate (FLog 6); ECreate (FTable 7); EAppend (FTable 7) (PTable ex_t);
+    EAppend (FManifest 2) ex_e6; ESyncDir; ESync (FManifest 2); EUnlink (FLog 3) ].
+(* R3 violated: the log is unlinked before the MANIFEST edit is fsynced *)
+Definition bad_unlink_before_manifest_sync := ex_open ++ ex_writes ++
+  [ ECreate (FLog 6); ECreate (FTable 7); EAppend (FTable 7) (PTable ex_t); ESync (FTable 7);
+    EAppend (FManifest 2) ex_e6; EUnlink (FLog 3) ].
+(* R4 violated: CURRENT is switched to a MANIFEST that is not fsynced *)
+Definition bad_rename_before_manifest_sync := ex_open ++ ex_writes ++
+  [ ECreate (FTable 5); EAppend (FTable 5) (PTable ex_t); ESync (FTable 5);
+    ECreate (FLog 6); ECreate (FManifest 4);
+    EAppend (FManifest 4) (PEdit (ex_ed None None None None [] []));
+    EAppend (FManifest 4) (PEdit (ex_ed (Some 6) (Some 0) (Some 7) (Some 3) [(0%nat, 5)] []));
+    ECreate (FTmp 4); EAppend (FTmp 4) (PCurrent 4); ESync (FTmp 4); ERename (FTmp 4) FCurrent; ESyncDir ].
+(* finding F5 (lcdb before /repo 0411e80): the old log is unlinked right after
+   the rename of CURRENT, without a directory fsync in between *)
+Definition bad_unlink_before_dirsync := ex_open ++ ex_writes ++
+  [ ECreate (FTable 5); EAppend (FTable 5) (PTable ex_t); ESync (FTable 5);
+    ECreate (FLog 6); ECreate (FManifest 4);
+    EAppend (FManifest 4) (PEdit (ex_ed None None None None [] []));
+    EAppend (FManifest 4) (PEdit (ex_ed (Some 6) (Some 0) (Some 7) (Some 3) [(0%nat, 5)] []));
+    ESyncDir; ESync (FManifest 4);
+    ECreate (FTmp 4); EAppend (FTmp 4) (PCurrent 4); ESync (FTmp 4); ERename (FTmp 4) FCurrent;
+    EUnlink (FManifest 2); EUnlink (FLog 3) ].
+
+(* positive control: accepted, both calls acknowledged, and no representative
+   crash image of any prefix loses the sync-acknowledged batch *)
+Example good_trace_accepted :
+  wf_protocol good_trace = true /\
+  acks good_trace = [(1, true, 3, (1, ex_w1)); (2, false, 3, (2, ex_w2))] /\
+  forallb (fun p => forallb (fun img => negb (lost_in img 3 (1, ex_w1)))
+                            (rep_images (firstn p good_trace)))
+          (seq 25 (length good_trace - 24)) = true.
+Proof. vm_compute. repeat split. Qed.
+
+Ltac refute_with i :=
+  split; [vm_compute; reflexivity|split; [vm_compute; reflexivity|split; [vm_compute; tauto|]]];
+  eexists (nth i (rep_images _) []); split;
+  [apply rep_images_sound; apply nth_In; vm_compute; lia|vm_compute; reflexivity].
+
+Example bad_trace_no_table_fsync_refuted :
+  wf_protocol bad_no_table_fsync = false /\ first_violation bad_no_table_fsync = Some (2, 31) /\
+  In (1, true, 3, (1, ex_w1)) (acks bad_no_table_fsync) /\
+  exists img, crash_image bad_no_table_fsync img /\ lost_in img 3 (1, ex_w1) = true.
+Proof. refute_with 0%nat. Qed.
+
+Example bad_trace_unlink_before_manifest_sync_refuted :
+  wf_protocol bad_unlink_before_manifest_sync = false /\
+  first_violation bad_unlink_before_manifest_sync = Some (3, 33) /\
+  In (1, true, 3, (1, ex_w1)) (acks bad_unlink_before_manifest_sync) /\
+  exists img, crash_image bad_unlink_before_manifest_sync img /\ lost_in img 3 (1, ex_w1) = true.
+Proof. refute_with 1%nat. Qed.
+
+Example bad_trace_rename_before_manifest_sync_refuted :
+  wf_protocol bad_rename_before_manifest_sync = false /\
+  first_violation bad_rename_before_manifest_sync = Some (4, 38) /\
+  In (1, true, 3, (1, ex_w1)) (acks bad_rename_before_manifest_sync) /\
+  exists img, crash_image bad_rename_before_manifest_sync img /\ lost_in img 3 (1, ex_w1) = true.
+Proof. refute_with 0%nat. Qed.
+
+(* F5: what the missing directory fsync allowed.  The trace is rejected only by
+   R3's "no pending rename" clause; the batch acknowledged WITHOUT sync whose
+   log has been unlinked is lost in the crash image that keeps the old CURRENT. *)
+Example C02_unlink_before_dirsync_refuted :
+  wf_protocol bad_unlink_before_dirsync = false /\
+  first_violation bad_unlink_before_dirsync = Some (3, 42) /\
+  (In (2, false, 3, (2, ex_w2)) (acks bad_unlink_before_dirsync) /\
+   In (EUnlink (FLog 3)) bad_unlink_before_dirsync) /\
+  exists img, crash_image bad_unlink_before_dirsync img /\ lost_in img 3 (2, ex_w2) = true.
+Proof.
+  split; [vm_compute; reflexivity|split; [vm_compute; reflexivity|split; [vm_compute; tauto|]]].
+  eexists (nth 0 (rep_images _) []); split;
+  [apply rep_images_sound; apply nth_In; vm_compute; lia|vm_compute; reflexivity].
+Qed.
+
+(* lost_in is the negation of what C02 promises *)
+Lemma lost_in_not_applied : forall tr img n b s, lost_in img n b = true -> recover img = Some s ->
+  In b (log_batches tr n) -> (forall m, In b (log_batches tr m) -> m = n) -> ~ applied tr s b.
+Proof.
+  intros tr img n b s H Hr Hb Huniq [Hin|[m [Hm Hlt]]]; unfold lost_in in H; rewrite Hr in H;
+    destruct (iget img FCurrent); try discriminate; apply andb_true_iff in H; destruct H as [H1 H2].
+  - apply negb_true_iff in H1.
+    assert (existsb (brec_eqb b) (applied_batches s) = true).
+    { apply existsb_exists. exists b. split; [exact Hin|]. unfold brec_eqb. rewrite N.eqb_refl. cbn [andb].
+      clear. induction (snd b) as [|w r IH]; [reflexivity|]. cbn [list_eqb]. rewrite IH, andb_true_r.
+      destruct w; cbn [wop_eqb]; unfold bytes_eqb;
+        repeat match goal with |- context [list_eqb N.eqb ?l ?l] =>
+          replace (list_eqb N.eqb l l) with true by (clear; induction l as [|a l IHl]; [reflexivity|cbn [list_eqb]; rewrite N.eqb_refl, <- IHl; reflexivity]) end; reflexivity. }
+    congruence.
+  - rewrite (Huniq _ Hm) in Hlt. apply negb_true_iff, N.ltb_ge in H2. lia.
+Qed.
+
+(* ------------------------------------------------------------------ the database exists once a sync write is acknowledged *)
+Lemma log_created_after_current : forall tr, wf_protocol tr = true ->
+  forall i n o, created_at (fs_run tr) i (FLog n) o -> nsk (fs_run tr) i FCurrent <> None.
+Proof.
+  intro tr; induction tr as [|e tr IH] using rev_ind; intros Hwf i n o Hc.
+  - destruct i; discriminate.
+  - apply wf_protocol_snoc in Hwf. destruct Hwf as [Hwf Hchk]. specialize (IH Hwf).
+    rewrite fs_run_snoc in Hc |- *. set (d := fs_run tr) in *.
+    destruct (step_ops_mono d e) as [l El].
+    assert (Hns : forall j, (j <= length (d_ops d))%nat -> nsk (fs_step d e) j = nsk d j).
+    { intros j Hj. unfold nsk. rewrite El, firstn_app. replace (j - length (d_ops d))%nat with O by lia.
+      cbn [firstn]. rewrite app_nil_r. reflexivity. }
+    unfold created_at in Hc. rewrite El in Hc.
+    destruct (Nat.lt_ge_cases i (length (d_ops d))) as [Hlt|Hge].
+    + rewrite nth_error_app1 in Hc by exact Hlt. rewrite Hns by lia. eapply IH; exact Hc.
+    + rewrite nth_error_app2 in Hc by exact Hge.
+      assert (He : e = ECreate (FLog n) /\ i = length (d_ops d)).
+      { destruct e as [f|f pl| | |a b|f|id b sy|id ok]; cbn [fs_step] in El;
+          try (destruct (ns_lookup d _)); cbn [d_ops] in El;
+          try (assert (l = []) by (apply (app_inv_head (d_ops d)); rewrite app_nil_r; symmetry; exact El); subst l;
+               destruct (i - length (d_ops d))%nat; discriminate);
+          apply app_inv_head in El; subst l; destruct (i - length (d_ops d))%nat as [|j] eqn:Ej; cbn in Hc;
+          try discriminate; try (destruct j; discriminate).
+        injection Hc as -> _. split; [reflexivity|lia]. }
+      destruct He as [-> ->]. rewrite Hns by lia.
+      apply chk_all_iff in Hchk. destruct Hchk as [_ [_ [_ [_ [H4 _]]]]]. cbn [chk_R4] in H4.
+      rewrite prun_disk in H4. fold d in H4. unfold current_manifest, obj_at in H4.
+      rewrite <- ns_lookup_nsk. destruct (ns_lookup d FCurrent); [discriminate|discriminate].
+Qed.
+
+Theorem C02_database_exists : forall tr, wf_protocol tr = true ->
+  forall p img id b, crash_image (firstn p tr) img -> acked_sync_before tr p id b ->
+  iget img FCurrent <> None.
+Proof.
+  intros tr Hwf p img id b Hc [n Hack]. pose proof (wf_protocol_firstn _ p Hwf) as Hwf'.
+  set (tr' := firstn p tr) in *.
+  pose proof (Inv_dur_run _ Hwf') as I. pose proof (id_struct _ I) as IS. pose proof (Inv_trace_run _ Hwf') as IT.
+  pose proof (is_ops _ IS) as W. rewrite prun_disk in W.
+  destruct (crash_image_cut _ _ Hc) as [k [cut [[A1 A2] [Hcut ->]]]].
+  destruct (it_dur _ IT _ _ _ Hack) as [i [o [x [j [Hcr [Hx [Hj _]]]]]]].
+  assert (Hi : (i < d_dsync (fs_run tr'))%nat).
+  { rewrite <- prun_disk in Hcr, Hx |- *. destruct (is_typed _ IS _ _ _ _ Hcr Hx) as [_ [_ S2]]. apply S2; lia. }
+  pose proof (log_created_after_current _ Hwf' _ _ _ Hcr) as Hcur.
+  assert (Hk : nsk (fs_run tr') k FCurrent <> None).
+  { eapply nsk_current_mono; [exact W| |exact A2|exact Hcur]. lia. }
+  destruct (nsk (fs_run tr') k FCurrent) as [c|] eqn:Ec; [|congruence].
+  rewrite iget_image_of. unfold ifile. rewrite Ec.
+  destruct (proj2 (nsk_created _ _ _ _ _ W Ec) eq_refl) as [i' [t [_ Hc']]].
+  pose proof (created_at_lt _ _ _ _ _ W Hc') as Hlt.
+  destruct (nth_error (d_objs (fs_run tr')) c) eqn:E; [discriminate|]. apply nth_error_None in E. lia.
+Qed.
